@@ -216,7 +216,13 @@ def build_harness(race=False):
     """Rebuild the harness from /repo's working tree + overlay. Returns (ok, message)."""
     ov = write_overlay()
     out = os.path.join(BUILD, "hbin_race" if race else "hbin")
-    cmd = [go_bin(), "build", "-tags", "verif", "-overlay", ov, "-o", out]
+    # the harness imports modules that are only indirect dependencies of /repo (gobwas/ws): build against a copy of
+    # go.mod / go.sum so that -mod=mod never rewrites /repo's own files
+    import shutil
+    modf = os.path.join(BUILD, "harness.mod")
+    shutil.copyfile(os.path.join(REPO, "go.mod"), modf)
+    shutil.copyfile(os.path.join(REPO, "go.sum"), os.path.join(BUILD, "harness.sum"))
+    cmd = [go_bin(), "build", "-modfile=" + modf, "-tags", "verif", "-overlay", ov, "-o", out]
     if race:
         cmd.append("-race")
     cmd.append("./internal/verifharness")
